@@ -50,7 +50,7 @@ probes_struct! {
         rt_c07_checked, rt_c07_skipped, rt_c10_checked, rt_c10_running_checked, rt_c10_skipped,
         rt_c12_checked, rt_c12_abandoned, rt_c12_unfinished,
         t5_probes, fresh_twin_steps, fork_lockstep_steps, telemetry_calls,
-        multi_channel_runs, fault_free_runs, polls_straddling_deadline, calls_during_which_time_passed, thread_hop_windows, calls_on_another_thread, scanner_debug_dumps, unwinding_windows, calls_from_an_unwinding_destructor, liar_feeds, events_not_judged_after_a_liar, resets_judged_after_a_liar, bulk_events, bulk_fast_rounds, bulk_fast_feeds, bulk_rounds_max_2pow16, bulk_rounds_max_2pow20, bulk_rounds_max_2pow24, env_reads, panics_on_main_answered_as_nothing, aborted_feeds, aborted_feed_calls_unwound, aborted_feed_calls_completed_and_rolled_back, message_debug_hash_checks, message_hash_mismatch,
+        multi_channel_runs, fault_free_runs, polls_straddling_deadline, calls_during_which_time_passed, thread_hop_windows, calls_on_another_thread, scanner_debug_dumps, misplaced_windows, calls_on_a_misplaced_copy, stdio_writes_inside_api_regions, unwinding_windows, calls_from_an_unwinding_destructor, liar_feeds, events_not_judged_after_a_liar, resets_judged_after_a_liar, bulk_events, bulk_fast_rounds, bulk_fast_feeds, bulk_rounds_max_2pow16, bulk_rounds_max_2pow20, bulk_rounds_max_2pow24, env_reads, panics_on_main_answered_as_nothing, aborted_feeds, aborted_feed_calls_unwound, aborted_feed_calls_completed_and_rolled_back, message_debug_hash_checks, message_hash_mismatch,
     }
     arrays: {
         rule_evals: N_RULES,
@@ -65,12 +65,13 @@ probes_struct! {
         reset_cells: 6,
         witness: 16,
         api_calls: 40,
-        faults_fired: 32,
-        faults_in_flight: 32,
+        faults_fired: 34,
+        faults_in_flight: 34,
         repr_used: 4,
         channels_used: 16,
         timeout_class_runs: 3,
         env_mode_runs: 4,
+        stdio_mode_runs: 2,
     }
 }
 
